@@ -199,6 +199,7 @@ type Hooks struct {
 	Prev   func(rev, xrefOff, prev int) int
 	Offset func(rev, num, off int) int
 	Entry  func(rev, num, typ, a, b int) (int, int, int)
+	PrevReal bool // /Prev written as a real number
 }
 
 // GenerateHooks builds the document with any of the hooks set.
@@ -232,6 +233,7 @@ func GenerateHooks(spec DocSpec, h Hooks) *GenDoc {
 	d.w.PrevHook = prevHook
 	d.w.OffsetHook = offsetHook
 	d.w.EntryHook = h.Entry
+	d.w.PrevReal = h.PrevReal
 
 	out := &GenDoc{Spec: spec}
 	set := map[int]Obj{}
